@@ -201,5 +201,7 @@ func ValidIdentifier(s string) bool {
 	// is easiest to do with our existing scanner-related infrastructure here
 	// and nobody should be validating identifiers in a tight loop.
 	tokens := scanTokens([]byte(s), "", hcl.Pos{}, scanIdentOnly)
-	return len(tokens) == 2 && tokens[0].Type == TokenIdent && tokens[1].Type == TokenEOF
+	// The scanner skips a leading byte order mark, so we must also check
+	// that the identifier token covers the whole string.
+	return len(tokens) == 2 && tokens[0].Type == TokenIdent && tokens[1].Type == TokenEOF && len(tokens[0].Bytes) == len(s)
 }
